@@ -218,3 +218,25 @@ func (f *queuedRSTStreamFrame) send(dest *http2.Framer) error {
 func (f *queuedRSTStreamFrame) String() string {
 	return fmt.Sprintf("RSTStream[id=%d, errCode=%v]", f.streamID, f.errCode)
 }
+
+// queuedSettingsAckFrame is a SETTINGS acknowledgement, it is not associated with a stream.
+type queuedSettingsAckFrame struct{}
+
+func (queuedSettingsAckFrame) StreamID() uint32 {
+	return 0
+}
+
+func (queuedSettingsAckFrame) flowControlSize() int {
+	return 0
+}
+
+func (queuedSettingsAckFrame) send(dest *http2.Framer) error {
+	if err := dest.WriteSettingsAck(); err != nil {
+		return fmt.Errorf("sending settings ack: %w", err)
+	}
+	return nil
+}
+
+func (queuedSettingsAckFrame) String() string {
+	return "settings ack"
+}
